@@ -22,6 +22,7 @@ def main(argv=None):
     except ModuleNotFoundError as e:
         print('no check for', a.prop, e, file=sys.stderr)
         return 3
+    os.environ['VERIF_TIER'] = a.tier          # read by the proof tier (which contract variants to prove)
     ctx = core.Ctx(a.prop, a.tier, seed, level=getattr(mod, 'LEVEL', 'exploration'))
     ctx.only = a.only
     try:
